@@ -228,4 +228,148 @@ def faceMargin [Zero K] [One K] [Sub K] [Neg K] [LT K] [DecidableLT K] (s : V3 K
   minK (minK (minK (absK s.x) (absK (1 - s.x))) (minK (absK s.y) (absK (1 - s.y))))
     (minK (absK s.z) (absK (1 - s.z)))
 
+/-! ### the Box *object*: current cell + lazily computed reciprocal vectors
+
+`atomman.Box` keeps `__reciprocal_vects` (`None` until `reciprocal_vects` is first read; filled with
+`inv(vects).T`; set back to `None` by the `vects` setter, through which every cell-defining setter
+goes).  `CBox` is that object, `SetOp`/`ReadOp` the calls of the public interface that C01 talks
+about, `CBox.set`/`CBox.read` what they do to the object *with* the cache, `SetOp.apply?`/`ReadOp.eval`
+what they mean for the bare cell.  `Proofs/C01.lean` shows the two agree for every call sequence
+(`obj_run_refines`).  The driver runs `CBox`. -/
+
+structure CBox (K : Type) where
+  box : Box K
+  cache : Option (M3 K)
+deriving Repr, BEq, DecidableEq
+
+/-- a new `Box()` (before any keyword is applied): unit cell, nothing cached. -/
+def CBox.fresh [Zero K] [One K] : CBox K := ⟨⟨M3.one, ⟨0, 0, 0⟩⟩, none⟩
+
+/-- the cell-changing calls. -/
+inductive SetOp (K : Type) where
+  /-- `set()` without arguments -/
+  | reset
+  /-- `Box(vects=v, origin=o)`, `set(vects=…)`, `set_vectors(…)` -/
+  | vects (v : M3 K) (o : V3 K)
+  /-- `box.vects = v` -/
+  | attrVects (v : M3 K)
+  /-- `box.origin = o`, `set(origin=o)` -/
+  | attrOrigin (o : V3 K)
+  /-- `set_lengths` -/
+  | lengths (p : Lengths K) (o : V3 K)
+  /-- `set_hi_los` -/
+  | hilos (p : HiLos K)
+  /-- `set_abc`: angles in degrees (for the guard), then `a b c`, the three cosines, the two roots -/
+  | abc (alpha beta gamma a b c ca cb cg ly lz : K) (o : V3 K)
+
+/-- the reads that involve the vectors' inverse or the faces. -/
+inductive ReadOp (K : Type) where
+  | recip
+  | c2r (p : V3 K)
+  | r2c (s : V3 K)
+  | inside (lam : Lams K) (p : V3 K) (inclusive : Bool)
+  | outside (lam : Lams K) (p : V3 K) (inclusive : Bool)
+
+/-- what a call reports. -/
+inductive Obs (K : Type) where
+  | ok
+  | rejected
+  | mat (m : M3 K)
+  | vec (v : V3 K)
+  | flag (b : Bool)
+deriving Repr, BEq, DecidableEq
+
+section object
+variable [Zero K] [One K] [OfNat K 180] [Neg K] [Add K] [Sub K] [Mul K] [Div K] [LT K] [LE K]
+  [DecidableLT K] [DecidableLE K] [DecidableEq K]
+
+/-- the cell a setter leaves behind; `none` = refused before anything is written (assert / ValueError). -/
+def SetOp.apply? (thr : K) (b : Box K) : SetOp K → Option (Box K)
+  | .reset => some (setVects thr M3.one ⟨0, 0, 0⟩)
+  | .vects v o => some (setVects thr v o)
+  | .attrVects v => some (setVectsAttr thr b v)
+  | .attrOrigin o => some (setOriginAttr b o)
+  | .lengths p o => setLengths? thr p o
+  | .hilos p => setHiLos? thr p
+  | .abc al be ga a b' c ca cb cg ly lz o =>
+    if anglesOk al be ga then setAbc? thr a b' c ca cb cg ly lz o else none
+
+/-- does the call assign to `vects` (whose setter drops the cached reciprocal vectors)?
+    Only the `origin` setter does not. -/
+def SetOp.writesVects : SetOp K → Bool
+  | .attrOrigin _ => false
+  | _ => true
+
+/-- meaning of a read for the bare cell (`np.linalg.inv` raises for a singular matrix). -/
+def ReadOp.eval (b : Box K) : ReadOp K → Obs K
+  | .recip => if b.vects.det = 0 then .rejected else .mat b.recip
+  | .c2r p => if b.vects.det = 0 then .rejected else .vec (b.cartToRel p)
+  | .r2c s => .vec (b.relToCart s)
+  | .inside lam p incl => .flag (C01.inside b lam p incl)
+  | .outside lam p incl => .flag (C01.outside b lam p incl)
+
+/-- the `reciprocal_vects` property: the cached matrix if there is one, else computed and cached. -/
+def CBox.recip? (c : CBox K) : Option (M3 K × CBox K) :=
+  match c.cache with
+  | some r => some (r, c)
+  | none => if c.box.vects.det = 0 then none else some (c.box.recip, ⟨c.box, some c.box.recip⟩)
+
+/-- a setter call on the object. -/
+def CBox.set (thr : K) (c : CBox K) (s : SetOp K) : CBox K × Obs K :=
+  match s.apply? thr c.box with
+  | none => (c, .rejected)
+  | some b' => (⟨b', if s.writesVects then none else c.cache⟩, .ok)
+
+/-- a read call on the object (`position_cartesian_to_relative` is
+    `np.inner(pos - origin, self.reciprocal_vects)`). -/
+def CBox.read (c : CBox K) : ReadOp K → CBox K × Obs K
+  | .recip =>
+    match c.recip? with
+    | some (r, c') => (c', .mat r)
+    | none => (c, .rejected)
+  | .c2r p =>
+    match c.recip? with
+    | some (r, c') => (c', .vec (M3.mulVec r (p - c.box.origin)))
+    | none => (c, .rejected)
+  | .r2c s => (c, .vec (c.box.relToCart s))
+  | .inside lam p incl => (c, .flag (C01.inside c.box lam p incl))
+  | .outside lam p incl => (c, .flag (C01.outside c.box lam p incl))
+
+/-- any call. -/
+inductive Op (K : Type) where
+  | set (s : SetOp K)
+  | read (r : ReadOp K)
+
+def CBox.step (thr : K) (c : CBox K) : Op K → CBox K × Obs K
+  | .set s => c.set thr s
+  | .read r => c.read r
+
+/-- the same call on the bare cell. -/
+def stepPlain (thr : K) (b : Box K) : Op K → Box K × Obs K
+  | .set s =>
+    match s.apply? thr b with
+    | none => (b, .rejected)
+    | some b' => (b', .ok)
+  | .read r => (b, r.eval b)
+
+/-- observations of a call sequence on the object / on the bare cell. -/
+def CBox.run (thr : K) : CBox K → List (Op K) → List (Obs K)
+  | _, [] => []
+  | c, op :: ops => (c.step thr op).2 :: CBox.run thr (c.step thr op).1 ops
+
+def runPlain (thr : K) : Box K → List (Op K) → List (Obs K)
+  | _, [] => []
+  | b, op :: ops => (stepPlain thr b op).2 :: runPlain thr (stepPlain thr b op).1 ops
+
+/-- the state after a call sequence. -/
+def CBox.after (thr : K) : CBox K → List (Op K) → CBox K
+  | c, [] => c
+  | c, op :: ops => CBox.after thr (c.step thr op).1 ops
+
+/-- what is cached is the inverse-transpose of the *current* vectors (and those are invertible). -/
+def CBox.Coherent (c : CBox K) : Prop :=
+  ∀ r, c.cache = some r → c.box.vects.det ≠ 0 ∧ r = c.box.recip
+
+end object
+
 end Atomman.C01
